@@ -1635,3 +1635,35 @@ MUTANTS = list(MUTANTS) + [
        "filtarr):")], "R2.2"),
 ]
 
+
+TWINS = list(TWINS) + [
+    ("tsv: first invalid feature found with next(), f-string messages", EXP,
+     [("        # Check that features exist\n"
+       "        for c in features:\n"
+       "            if c not in ds.features_scalar:\n"
+       '                raise ValueError("Invalid feature name {}".format(c))'
+       "\n",
+       "        # Check that features exist\n"
+       "        invalid = next(\n"
+       "            (c for c in features if c not in ds.features_scalar), "
+       "None)\n"
+       "        if invalid is not None:\n"
+       '            raise ValueError(f"Invalid feature name {invalid}")\n')]),
+]
+
+MUTANTS = list(MUTANTS) + [
+    ("tsv: next()-based feature check accepts unknown features", EXP,
+     [("        # Check that features exist\n"
+       "        for c in features:\n"
+       "            if c not in ds.features_scalar:\n"
+       '                raise ValueError("Invalid feature name {}".format(c))'
+       "\n",
+       "        # Check that features exist\n"
+       "        invalid = next(\n"
+       "            (c for c in features if c in ds.features_scalar), "
+       "None)\n"
+       "        if invalid is None:\n"
+       '            raise ValueError(f"Invalid feature name {invalid}")\n'),
+      ("        features = [c.lower() for c in features]\n", "")], "R2.4"),
+]
+
